@@ -106,6 +106,14 @@ class SubList(Base):
         rec(self, items=items, t=t)
 
 
+class WithOptDC(Base):
+    """a class with an optional dataclass parameter (its nested fields are options of their own)"""
+
+    def __init__(self, d: Optional[Point] = None, a: int = 1):
+        self.d, self.a = d, a
+        rec(self, d=d, a=a)
+
+
 class Unrelated:
     def __init__(self, z: int = 0):
         self.z = z
